@@ -61,10 +61,9 @@ package util
 // the processed prefix is untouched.
 //@ func DelDupKey [C13]
 //@   opt safety=assumed overflow=assumed
-//@   requires forall m :: 0 <= m && m < len(kvs) ==> kvs[m] != nil
 //@   ensures len(result) <= len(kvs) && sarr(result) == sarr(kvs) && soff(result) == soff(kvs)
 //@   ensures forall a :: forall b :: 0 <= a && a < b && b < len(result) ==> bytes(result[a].Key) != bytes(result[b].Key)
 //@   loop 0 invariant 0 <= n && n <= rangeindex + 1 && rangeindex >= -1 && !isnil(dupindex)
-//@   loop 0 invariant forall k Bytes :: has(dupindex, k) ==> 0 <= dupindex[k] && dupindex[k] < n && kvs[dupindex[k]] != nil && bytes(kvs[dupindex[k]].Key) == k
-//@   loop 0 invariant forall j :: 0 <= j && j < n ==> kvs[j] != nil && has(dupindex, bytes(kvs[j].Key)) && dupindex[bytes(kvs[j].Key)] == j
+//@   loop 0 invariant forall k Bytes :: has(dupindex, k) ==> 0 <= dupindex[k] && dupindex[k] < n && bytes(kvs[dupindex[k]].Key) == k
+//@   loop 0 invariant forall j :: 0 <= j && j < n ==> has(dupindex, bytes(kvs[j].Key)) && dupindex[bytes(kvs[j].Key)] == j
 //@   loop 0 invariant forall m :: rangeindex < m && m < len(kvs) ==> kvs[m] == old(kvs[m])
